@@ -280,6 +280,33 @@ def r4_progress(rep, facts, g):
                     if op == 'alt':
                         return any(passes_empty(y) for y in t['items'])
                     return pm.nullable_of(g, t)
+                # a pass that rewinds the input (`input.reset(&checkpoint)`) and then goes round again undoes its own progress: after a reset the pass must leave the loop
+                def rewinds(node_):
+                    out_ = []
+
+                    def blocks(n_):
+                        if isinstance(n_, dict):
+                            if n_.get('k') == 'block':
+                                sts = list(n_.get('stmts', [])) + ([n_['expr']] if n_.get('expr') is not None else [])
+                                for i_, st_ in enumerate(sts):
+                                    direct = [y for y in walk(st_) if y.get('k') == 'mcall' and y.get('name') == 'reset' and 'Stateful' in (peel(y['recv']).get('t') or '')]
+                                    nested_blocks = any(y.get('k') == 'block' for y in walk(st_) if y is not st_)
+                                    if direct and not nested_blocks:
+                                        leaves = any(y.get('k') in ('break', 'ret') and not (y.get('x') and 'QuestionMark' in (y.get('m') or '')) for later in sts[i_:] for y in walk(later))
+                                        if not leaves:
+                                            out_.append(direct[0])
+                            for v_ in n_.values():
+                                blocks(v_)
+                        elif isinstance(n_, list):
+                            for v_ in n_:
+                                blocks(v_)
+                    blocks(node_)
+                    return out_
+                rw = rewinds(x.get('node') or {})
+                if rw:
+                    rep.bad(R, key + '|rewind', f'`{short(d)}`: a pass through the hand-written loop rewinds the input (`reset` at line {rw[0].get("l")}) and goes round again: the same input is '
+                            f'read for ever', loc)
+                    continue
                 first = p['items'][0] if p['op'] == 'seq' else p
                 if not passes_empty(p):
                     rep.ok(R, key, 'every pass through the loop body that does not leave the loop consumes input', loc)
